@@ -197,6 +197,116 @@ def resolve(qual):
     raise ImportError(qual)
 
 
+def run_logfs(req, out):
+    """C20: DefaultHandler on a real temporary directory.  ops: ['write', t, type, msg] | ['cb', name, args...] |
+    ['rotate'] | ['restart'] | ['truncate', nbytes] | ['get_last'] ; a crash is 'truncate' (torn tail) + 'restart'."""
+    import tempfile
+    import shutil
+    import os
+    from yabgp.handler import default_handler as DHM
+    tmp = tempfile.mkdtemp(prefix='c20fs')
+    peer = req.get('peer', '10.0.0.2')
+    key = peer.lower()
+    msgdir = os.path.join(tmp, key, 'msg') + '/'
+    os.makedirs(msgdir)
+    log = []
+    try:
+        CONF.reset()
+        CONF(args=['--bgp-local_as=65001', '--bgp-remote_as=65002', '--bgp-remote_addr=%s' % peer, '--bgp-local_addr=10.0.0.1'],
+             project='yabgp')
+        CONF.set_override('write_dir', tmp + '/', group='message')
+        CONF.set_override('write_msg_max_size', int(req.get('max_size', 500)), group='message')
+        CONF.set_override('write_keepalive', bool(req.get('write_keepalive', False)), group='message')
+        for name, content in req.get('files', []):
+            with open(msgdir + name, 'w') as fh:
+                fh.write(content)
+        state = {'h': None}
+
+        class Fac(object):
+            peer_addr = peer
+
+        class Peer(object):
+            factory = Fac()
+            msg_recv_stat = {'Keepalives': 2}
+
+        def start():
+            h = DHM.DefaultHandler()
+            h.init_msg_file(key)
+            state['h'] = h
+        clock = [float(req.get('now', 5000.0))]
+        import time as _time
+        real_time = _time.time
+
+        def fake_time():
+            clock[0] += 1.0
+            return clock[0]
+        DHM.time.time = fake_time
+        try:
+            if req.get('start', True):
+                try:
+                    start()
+                    log.append({'op': 'start', 'outcome': 'return'})
+                except BaseException as e:
+                    log.append({'op': 'start', 'outcome': 'raise', 'exc': type(e).__name__, 'exc_str': str(e)[:200]})
+            for op in req.get('ops', []):
+                rec = {'op': op[0]}
+                try:
+                    h = state['h']
+                    if op[0] == 'write':
+                        h.write_msg(peer, op[1], op[2], unj(op[3]))
+                    elif op[0] == 'cb':
+                        args = [unj(a) for a in op[2:]]
+                        if op[1] == 'on_connection_failed':
+                            getattr(h, op[1])(peer, *args)
+                        else:
+                            getattr(h, op[1])(Peer(), *args)
+                    elif op[0] == 'rotate':
+                        rec['result'] = jval(h.check_file_size(peer))
+                    elif op[0] == 'get_last':
+                        rec['result'] = jval(DHM.DefaultHandler.get_last_seq_and_file(msgdir))
+                    elif op[0] == 'truncate':
+                        names = sorted(os.listdir(msgdir))
+                        if names:
+                            path = msgdir + names[-1]
+                            size = os.path.getsize(path)
+                            with open(path, 'r+') as fh:
+                                fh.truncate(max(0, size - int(op[1])))
+                    elif op[0] == 'restart':
+                        if h is not None and key in h.peer_files:
+                            try:
+                                h.peer_files[key][1].close()
+                            except Exception:
+                                pass
+                        state['h'] = None
+                        start()
+                    rec['outcome'] = 'return'
+                except BaseException as e:
+                    rec['outcome'] = 'raise'
+                    rec['exc'] = type(e).__name__
+                    rec['exc_str'] = str(e)[:200]
+                log.append(rec)
+                if rec['outcome'] == 'raise' and op[0] in ('restart',):
+                    break
+        finally:
+            DHM.time.time = real_time
+        h = state['h']
+        if h is not None:
+            out['msg_sequence'] = jval(dict(h.msg_sequence))
+            cur = h.peer_files.get(key)
+            out['current_file'] = os.path.basename(cur[1].name) if cur else None
+            out['peer_files_keys'] = sorted(h.peer_files.keys())
+            for k, (pth, fobj) in h.peer_files.items():
+                try:
+                    fobj.close()
+                except Exception:
+                    pass
+        out['files'] = [[n, open(msgdir + n).read()] for n in sorted(os.listdir(msgdir))]
+        out['log'] = log
+        out['outcome'] = 'done'
+    finally:
+        shutil.rmtree(tmp, ignore_errors=True)
+
+
 def run_request(req):
     kind = req['kind']
     out = {'kind': kind}
@@ -285,6 +395,8 @@ def run_request(req):
                     break
             out['outcome'] = 'timeout' if any(r['outcome'] == 'timeout' for r in runs) else 'done'
             out['runs'] = runs
+        elif kind == 'logfs':
+            run_logfs(req, out)
         else:
             out['outcome'] = 'error'
             out['error'] = 'unknown request kind'
